@@ -5,6 +5,7 @@ import (
 	"go/constant"
 	"go/token"
 	"go/types"
+	"strings"
 
 	"golang.org/x/tools/go/ssa"
 )
@@ -169,6 +170,62 @@ func checkC02(c *Ctx) {
 	}
 	R.min("C02.retprop", 4)
 
+	// ---- C02.confine: 结束循环 / 继续循环 act on the innermost enclosing loop only - so a loop signal never leaves the
+	// method body it was raised in: where the body's error leaves evalExecBlock (handed to the exception handling or
+	// returned), it has been tested for both loop-signal kinds, and on the edges where it is one it was replaced
+	if f := u.ssaFunc("pkg/exec", "evalExecBlock"); f != nil {
+		sigC := constsWithPrefix(u.Pkgs["pkg/error"], "SigType")
+		kinds := map[int64]bool{}
+		replaced := true
+		for _, b := range f.Blocks {
+			ifi, ok := b.Instrs[len(b.Instrs)-1].(*ssa.If)
+			if !ok {
+				continue
+			}
+			bo, ok := ifi.Cond.(*ssa.BinOp)
+			if !ok || bo.Op != token.EQL {
+				continue
+			}
+			base, isSig := fieldLoad(bo.X, "SigType")
+			cst, isConst := bo.Y.(*ssa.Const)
+			if !isSig || !isConst || !namedTypeIs(base.Type(), "pkg/error", "Signal") {
+				continue
+			}
+			if cst.Int64() != sigC["SigTypeContinue"] && cst.Int64() != sigC["SigTypeBreak"] {
+				continue
+			}
+			kinds[cst.Int64()] = true
+			// on the matching edge every later use of an error as call argument / return value is not the body's own error
+			for _, in := range instrsOf(f) {
+				call, isCall := in.(*ssa.Call)
+				if !isCall || u.callName(call) != "pkg/exec.handleExceptionSignal" {
+					continue
+				}
+				if !reachesFrom(b.Succs[0], call.Block()) {
+					continue
+				}
+				for _, a := range call.Call.Args {
+					if !isErrorType(a.Type()) {
+						continue
+					}
+					// the argument on paths through the matching edge: a phi one of whose sources is a fresh error
+					fresh := false
+					for _, src := range allSources(a) {
+						if cv, isCV := src.(*ssa.Call); isCV && cv.Call.StaticCallee() != nil && cv.Call.StaticCallee().Pkg != nil && strings.HasSuffix(cv.Call.StaticCallee().Pkg.Pkg.Path(), "pkg/error") {
+							fresh = true
+						}
+					}
+					if !fresh {
+						replaced = false
+					}
+				}
+			}
+		}
+		R.check(kinds[sigC["SigTypeContinue"]] && kinds[sigC["SigTypeBreak"]] && replaced, "C02.confine", "pkg/exec.evalExecBlock:loop-signals-stay-inside", u.pos(f.Pos()), "a 继续循环 / 结束循环 signal that reaches the end of a method body is replaced by an error before it leaves", "a loop signal raised outside any loop of a method body leaves the call as it is: it continues or ends a loop of the CALLER (结束循环 in a called method stops the caller's 遍历)")
+	} else {
+		R.lost("C02.confine", "pkg/exec.evalExecBlock")
+	}
+
 	// which branch a 再如 / 否则 line belongs to is decided by indentation (rules of C03.indent)
 	borrowRule(c, "C03", "C03.indent", "C02.nesting")
 
@@ -285,6 +342,11 @@ func checkC02(c *Ctx) {
 				continue
 			}
 			if k != cont && k != brk {
+				continue
+			}
+			if fn == "pkg/exec.evalExecBlock" {
+				// the boundary of a method body: a loop signal that reaches it belongs to no loop of the body and is
+				// turned into an error there (checked below, C02.confine)
 				continue
 			}
 			if !drivers[fn] {
